@@ -24,7 +24,7 @@ RULE = ("a case places secret fields (aes / xor / best) at the root, in sub-sche
         "opens during dumps/loads contains no key file other than the expected ones, (4) a fresh configuration (new "
         "objects; 1 in 40 in a new process) loading the document gets every plaintext back; non-trivial = >= 2 "
         "non-empty secrets at >= 2 depths; distinct = distinct case content")
-REQUIRED = ("saves_failed_for_missing_key_directory", "layout:two-types-one-schema-different-keyfiles", "layout:only-keyed-subtrees", "layout:transplanted-subconfig", "layout:names-inherited-file", "documents_scanned_for_tokens", "ciphertexts_decrypted_by_oracle", "keyfile_open_sets_checked",
+REQUIRED = ("sections_saved_without_a_reference_to_the_root", "saves_failed_for_missing_key_directory", "layout:two-types-one-schema-different-keyfiles", "layout:only-keyed-subtrees", "layout:transplanted-subconfig", "layout:names-inherited-file", "documents_scanned_for_tokens", "ciphertexts_decrypted_by_oracle", "keyfile_open_sets_checked",
             "reloads_compared", "layout:root-ctor", "layout:root-attr", "layout:sub", "layout:ctype", "layout:default",
             "secrets_in_list_items", "rekey_after_first_use", "new_process_reloads")
 ASSUMPTIONS = ["only files under the sandbox root are considered; HOME is redirected so the default key file is sandboxed",
@@ -86,6 +86,16 @@ def generate(rng, ctx):
     }
     if layout.get("only_keyed_subtrees"):
         values.update({"s": "", "lst": [], "dsec": {}, "items": []})
+    elif rng.random() < (0.02 if thorough else 0.006):
+        # one secret longer than 64 KiB (certificate bundles are): nothing of it may be lost
+        pos = rng.choice(["s", "a.s", "t.s"])
+        values[pos] = token(rng) + "".join(rng.choice("abcdefghij\n+/=") for _ in range(rng.choice([65600, 70000])))
+        if rng.random() < 0.6:
+            methods[pos] = "xor"
+            if pos == "t.s":
+                methods["t2.s"] = "xor"
+        layout["big_secret"] = pos
+    layout["orphan_section"] = rng.random() < 0.2
     fmts = rng.sample(trees.FORMATS, rng.choice([1, 2, 3]))
     return {"layout": layout, "methods": methods, "values": values, "fmts": fmts, "newproc": rng.random() < 0.025,
             "r": rng.getrandbits(20)}
@@ -281,6 +291,50 @@ def run(case, ctx, res):
         exp = expected_keys(case, d, default, rkey)
         for fmt in case["fmts"]:
             if not _save_and_check(cc, ctx, res, case, cfg, schema, fmt, positions, exp, log, allkeys, rname, rkey):
+                return
+    if lay.get("big_secret"):
+        res.count("secrets_longer_than_64KiB")
+    # only a SECTION of the tree is kept by the caller (the root goes out of scope): its secrets still belong to the key
+    # file of the ancestors it was built under
+    if lay.get("orphan_section"):
+        import gc
+
+        tmp = make_config(cc, schema, case, d, rootkey)
+        fill(tmp, case["values"])
+        section = tmp.a
+        del tmp
+        gc.collect()
+        fmt = case["fmts"][0]
+        exp = expected_keys(case, d, default, rootkey)
+        log.clear()
+        with log:
+            try:
+                blob = section.dumps(fmt)
+                tree = cc.ConfigFormat.get(fmt).loads(section, blob)
+                err = None
+            except Exception as exc:
+                err = exc
+        if err is not None:
+            res.viol("M-save", "dumps-raises:orphan-section", "dumps(%s) of a section whose root is no longer referenced raised %s: %s" % (
+                fmt, type(err).__name__, str(err)[:200]))
+            return
+        res.count("sections_saved_without_a_reference_to_the_root")
+        for pos, path, plain in positions:
+            if not pos.startswith("a.") or not plain:
+                continue
+            try:
+                entry = dig(tree, path[1:])
+                with open(exp[pos], "rb") as fp:
+                    key = fp.read()
+                ct = base64.b64decode(entry["ciphertext"])
+                got = aes_ref.aes_decrypt(key, ct) if entry["method"] == "aes" else aes_ref.xor_stream(key, ct)
+            except Exception as exc:
+                got = exc
+            if got != plain.encode():
+                touched = sorted(os.path.basename(e[1]) for e in log.events if e[1] in allkeys)
+                res.viol("M-key", "wrong-key:orphan-section", "%s: secret %s of a section saved on its own (root not referenced any more) "
+                         "does not decrypt under the expected key file %s (key files opened: %s)" % (
+                             fmt, ".".join(map(str, path)), os.path.basename(exp[pos]), touched))
                 return
     depths = {len(p) for _pos, p, v in positions if v}
     if len([1 for _pos, _p, v in positions if v]) >= 2 and len(depths) >= 2:
